@@ -1,3 +1,4 @@
+import PiqpModel.Csc
 import PiqpProofs.Basic
 import PiqpModel.LinAlg
 import PiqpModel.Exec
@@ -1299,3 +1300,146 @@ theorem ldlt_unique : ∀ (n : Nat) (A L : Mat K n n) (D : Vec K n),
       · rw [consL_s0, hl s]
       · rw [consL_ss, hL' s t, minorM_get]
 end Piqp.C14
+
+/-! ## Storage level: the CSC loops of `pre_mult_diagonal` / `post_mult_diagonal` compute `D·A` / `A·D`
+
+`transpose_no_allocation` (`Csc.transposeInto`) is modelled and tied at storage level too (check C14: the three arrays on every
+pattern up to 3×3) but its specification is not proved here. -/
+
+namespace Piqp.Csc
+variable {K : Type}
+
+/-- a fold of in-place updates `v[k] ← f k v[k]` over a contiguous range touches exactly that range, once -/
+theorem foldl_modify_range (f : Nat → K → K) : ∀ (len lo : Nat) (v : Array K) (t : Nat),
+    ((List.range' lo len).foldl (fun v k => v.modify k (f k)) v)[t]? =
+      if lo ≤ t ∧ t < lo + len then (v[t]?).map (f t) else v[t]?
+  | 0, lo, v, t => by simp
+  | len+1, lo, v, t => by
+    rw [List.range'_succ, List.foldl_cons, foldl_modify_range f len (lo+1) _ t, Array.getElem?_modify]
+    by_cases h1 : lo = t
+    · subst h1
+      simp
+    · by_cases h2 : lo + 1 ≤ t ∧ t < lo + 1 + len
+      · have : lo ≤ t ∧ t < lo + (len + 1) := ⟨by omega, by omega⟩
+        simp [h1, h2, this]
+      · have : ¬ (lo ≤ t ∧ t < lo + (len + 1)) := by omega
+        simp [h1, h2, this]
+
+/-- the common shape of the two diagonal scalings: column by column, entry by entry, `v[k] ← g j k v[k]` -/
+def mapCols (A : Csc K) (g : Nat → Nat → K → K) : Array K :=
+  (List.range A.cols).foldl (fun v j => (A.colRange j).foldl (fun v k => v.modify k (g j k)) v) A.vals
+
+/-- the column starts are non-decreasing -/
+def Mono (A : Csc K) : Prop := ∀ j, j < A.cols → A.outer.getD j 0 ≤ A.outer.getD (j + 1) 0
+
+theorem Mono.le {A : Csc K} (h : Mono A) : ∀ (b a : Nat), a ≤ b → b ≤ A.cols → A.outer.getD a 0 ≤ A.outer.getD b 0
+  | 0, a, hab, _ => by have : a = 0 := by omega
+                       subst this; exact Nat.le_refl _
+  | b+1, a, hab, hb => by
+    by_cases he : a = b + 1
+    · subst he; exact Nat.le_refl _
+    · exact Nat.le_trans (h.le b a (by omega) (by omega)) (h b (by omega))
+
+theorem col_pass (A : Csc K) (g : Nat → Nat → K → K) (j : Nat) (v : Array K) (t : Nat) :
+    ((A.colRange j).foldl (fun v k => v.modify k (g j k)) v)[t]? =
+      if A.outer.getD j 0 ≤ t ∧ t < A.outer.getD (j + 1) 0 then (v[t]?).map (g j t) else v[t]? := by
+  unfold colRange
+  rw [foldl_modify_range (g j)]
+  by_cases h : A.outer.getD j 0 ≤ t ∧ t < A.outer.getD (j + 1) 0
+  · have : A.outer.getD j 0 ≤ t ∧ t < A.outer.getD j 0 + (A.outer.getD (j + 1) 0 - A.outer.getD j 0) := ⟨h.1, by omega⟩
+    rw [if_pos h, if_pos this]
+  · have : ¬ (A.outer.getD j 0 ≤ t ∧ t < A.outer.getD j 0 + (A.outer.getD (j + 1) 0 - A.outer.getD j 0)) := by omega
+    rw [if_neg h, if_neg this]
+
+/-- columns whose ranges do not contain `t` leave position `t` alone -/
+theorem cols_skip (A : Csc K) (g : Nat → Nat → K → K) (t : Nat) : ∀ (js : List Nat) (v : Array K),
+    (∀ j ∈ js, ¬ (A.outer.getD j 0 ≤ t ∧ t < A.outer.getD (j + 1) 0)) →
+    (js.foldl (fun v j => (A.colRange j).foldl (fun v k => v.modify k (g j k)) v) v)[t]? = v[t]?
+  | [], v, _ => rfl
+  | j :: js, v, h => by
+    rw [List.foldl_cons, cols_skip A g t js _ (fun j' hj' => h j' (List.mem_cons_of_mem _ hj')), col_pass,
+      if_neg (h j (List.mem_cons_self))]
+
+/-- every stored entry is updated exactly once, by the pass over its own column -/
+theorem mapCols_get (A : Csc K) (hm : Mono A) (g : Nat → Nat → K → K) (j0 t : Nat) (hj : j0 < A.cols)
+    (ht : A.outer.getD j0 0 ≤ t ∧ t < A.outer.getD (j0 + 1) 0) :
+    (mapCols A g)[t]? = (A.vals[t]?).map (g j0 t) := by
+  unfold mapCols
+  have hsplit : List.range A.cols = List.range' 0 j0 ++ j0 :: List.range' (j0 + 1) (A.cols - j0 - 1) := by
+    rw [List.range_eq_range']
+    have h1 : A.cols = j0 + (1 + (A.cols - j0 - 1)) := by omega
+    conv_lhs => rw [h1]
+    rw [← List.range'_append_1, ← List.range'_append_1]
+    simp [List.range']
+  rw [hsplit, List.foldl_append, List.foldl_cons]
+  rw [cols_skip A g t _ _ (fun j hj' => ?_), col_pass, if_pos ht, cols_skip A g t _ _ (fun j hj' => ?_)]
+  · -- earlier columns end at or before outer j0
+    have hj2 : j < j0 := by simpa [List.mem_range'] using hj'
+    have := hm.le j0 (j + 1) (by omega) (by omega)
+    omega
+  · have hj2 : j0 + 1 ≤ j ∧ j < A.cols := by
+      have := List.mem_range'.mp hj'
+      obtain ⟨i, hi, rfl⟩ := this
+      omega
+    have := hm.le j (j0 + 1) hj2.1 (by omega)
+    omega
+end Piqp.Csc
+
+namespace Piqp.Csc
+variable {K : Type} [CommSemiring K]
+
+theorem getD_of_map (v : Array K) (t : Nat) (f : K → K) (hf : f 0 = 0) : ((v[t]?).map f).getD 0 = f (v.getD t 0) := by
+  rw [Array.getD_eq_getD_getElem?]
+  cases v[t]? <;> simp [hf]
+
+theorem foldl_scale (c : Nat → Prop) [DecidablePred c] (a : Nat → K) (s : K) : ∀ (l : List Nat) (acc : K),
+    l.foldl (fun acc k => if c k then acc + a k * s else acc) (acc * s) = (l.foldl (fun acc k => if c k then acc + a k else acc) acc) * s
+  | [], acc => rfl
+  | k :: l, acc => by
+    rw [List.foldl_cons, List.foldl_cons]
+    by_cases h : c k
+    · rw [if_pos h, if_pos h, ← add_mul]; exact foldl_scale c a s l _
+    · rw [if_neg h, if_neg h]; exact foldl_scale c a s l _
+
+theorem foldl_congr_mem {β : Type} (f g : β → Nat → β) : ∀ (l : List Nat) (acc : β), (∀ k ∈ l, ∀ b, f b k = g b k) → l.foldl f acc = l.foldl g acc
+  | [], _, _ => rfl
+  | k :: l, acc, h => by
+    rw [List.foldl_cons, List.foldl_cons, h k List.mem_cons_self]
+    exact foldl_congr_mem f g l _ (fun k' hk' => h k' (List.mem_cons_of_mem _ hk'))
+
+theorem mem_colRange (A : Csc K) (j k : Nat) : k ∈ A.colRange j ↔ A.outer.getD j 0 ≤ k ∧ k < A.outer.getD (j + 1) 0 := by
+  unfold colRange
+  rw [List.mem_range'_1]
+  omega
+
+/-- **`pre_mult_diagonal` at storage level**: the loops over the three arrays compute `D·A` — for every column start array that is
+    non-decreasing, the dense denotation of the result is `diag(i) · A(i,j)`, and the pattern arrays are untouched -/
+theorem get_preMultDiag (A : Csc K) (hm : Mono A) (d : Array K) (i j : Nat) (hj : j < A.cols) :
+    (A.preMultDiag d).get i j = A.get i j * d.getD i 0 ∧ (A.preMultDiag d).outer = A.outer ∧ (A.preMultDiag d).inner = A.inner := by
+  refine ⟨?_, rfl, rfl⟩
+  show ((A.colRange j).foldl (fun acc k => if A.inner.getD k 0 = i then acc + (mapCols A (fun j k x => x * d.getD (A.inner.getD k 0) 0)).getD k 0 else acc) 0) = _
+  unfold get
+  rw [← foldl_scale (fun k => A.inner.getD k 0 = i) (fun k => A.vals.getD k 0) (d.getD i 0) (A.colRange j) 0, zero_mul]
+  apply foldl_congr_mem
+  intro k hk b
+  by_cases h : A.inner.getD k 0 = i
+  · rw [if_pos h, if_pos h]
+    congr 1
+    rw [Array.getD_eq_getD_getElem?, mapCols_get A hm _ j k hj ((mem_colRange A j k).mp hk), getD_of_map A.vals k (fun x => x * d.getD (A.inner.getD k 0) 0) (zero_mul _), h]
+  · rw [if_neg h, if_neg h]
+
+/-- **`post_mult_diagonal` at storage level**: `A·D` -/
+theorem get_postMultDiag (A : Csc K) (hm : Mono A) (d : Array K) (i j : Nat) (hj : j < A.cols) :
+    (A.postMultDiag d).get i j = A.get i j * d.getD j 0 ∧ (A.postMultDiag d).outer = A.outer ∧ (A.postMultDiag d).inner = A.inner := by
+  refine ⟨?_, rfl, rfl⟩
+  show ((A.colRange j).foldl (fun acc k => if A.inner.getD k 0 = i then acc + (mapCols A (fun j k x => x * d.getD j 0)).getD k 0 else acc) 0) = _
+  unfold get
+  rw [← foldl_scale (fun k => A.inner.getD k 0 = i) (fun k => A.vals.getD k 0) (d.getD j 0) (A.colRange j) 0, zero_mul]
+  apply foldl_congr_mem
+  intro k hk b
+  by_cases h : A.inner.getD k 0 = i
+  · rw [if_pos h, if_pos h]
+    congr 1
+    rw [Array.getD_eq_getD_getElem?, mapCols_get A hm _ j k hj ((mem_colRange A j k).mp hk), getD_of_map A.vals k (fun x => x * d.getD j 0) (zero_mul _)]
+  · rw [if_neg h, if_neg h]
+end Piqp.Csc
